@@ -339,6 +339,11 @@ def _feq(a, b):
     return (a != a and b != b) or a == b
 
 
+def _neq(a, b):
+    with np.errstate(invalid='ignore'):
+        return ~((a == b) | ((a != a) & (b != b)))
+
+
 def _arr_equal(a, b):
     if a.dtype.kind == 'c':
         return _arr_equal(a.real, b.real) and _arr_equal(a.imag, b.imag)
@@ -376,8 +381,8 @@ def diff(a, b, path, out, limit=6):
         elif a[2] != b[2]:
             out.append((path, 'shape', f'{a[2]} -> {b[2]}'))
         elif not _arr_equal(a[3], b[3]):
-            bad = int(np.sum(~((a[3] == b[3]) | ((a[3] != a[3]) &
-                                                  (b[3] != b[3])))))
+            bad = int(np.sum(_neq(a[3].real, b[3].real) |
+                             _neq(a[3].imag, b[3].imag)))
             out.append((path, 'value', f'{bad} of {a[3].size} entries of '
                         f'{brief(a)} differ'))
     elif t in ('dict', 'odict', 'obj'):
